@@ -201,8 +201,29 @@ def rule_cover_check(ctx: Ctx):
                         if isinstance(i, ast.If) and norm(i.test) in (f"{cnt} == 0", f"{cnt} < 1", f"{cnt} <= 0", f"not {cnt}") and not i.orelse and \
                                 _raises(i.body, "SetPartitionError") and len(L2.body) == 1:
                             okz, znode = True, i
-    ctx.check(okz, "R-C17-3", f, znode, "SetPartitionError iff some unit of the continuum has count 0 (occurs in no unitary alignment)",
-              bad_detail="the cover test is not `count == 0 -> SetPartitionError` over every unit", key="zero-test")
+    if not okz:
+        # the same test as a search: `m = next((u for u, cnt in per_annotator.items() if cnt == 0), None)` then `if m is not None: raise SetPartitionError`
+        for L in walk_no_nested(f.node):
+            if not (isinstance(L, ast.For) and norm(L.iter) == f"{occ}.items()" and isinstance(L.target, ast.Tuple) and len(L.body) == 2):
+                continue
+            fa = norm(L.target.elts[1])
+            a_, i_ = L.body
+            if isinstance(a_, ast.Assign) and isinstance(a_.targets[0], ast.Name) and isinstance(a_.value, ast.Call) and norm(a_.value.func) == "next" and len(a_.value.args) == 2 and \
+                    isinstance(a_.value.args[0], ast.GeneratorExp) and norm(a_.value.args[1]) == "None" and isinstance(i_, ast.If) and not i_.orelse and \
+                    norm(i_.test) == f"{a_.targets[0].id} is not None" and _raises(i_.body, "SetPartitionError"):
+                g_ = a_.value.args[0]
+                gen = g_.generators[0]
+                if len(g_.generators) == 1 and norm(gen.iter) == f"{fa}.items()" and isinstance(gen.target, ast.Tuple) and len(gen.ifs) == 1 and \
+                        norm(g_.elt) == norm(gen.target.elts[0]) and norm(gen.ifs[0]) in (f"{norm(gen.target.elts[1])} == 0", f"{norm(gen.target.elts[1])} < 1",
+                                                                                       f"not {norm(gen.target.elts[1])}"):
+                    okz, znode = True, i_
+    shape_found = okz or any(isinstance(L, ast.For) and norm(L.iter) == f"{occ}.items()" and any(isinstance(x, ast.For) for x in L.body) for L in walk_no_nested(f.node))
+    if not shape_found:
+        ctx.undecided("R-C17-3", f, None, "the test of the occurrence counters is neither the double loop `count == 0 -> SetPartitionError` nor a `next(...)` search over "
+                      "them: shape not recognised (not a verdict)", key="zero-test")
+    else:
+        ctx.check(okz, "R-C17-3", f, znode, "SetPartitionError iff some unit of the continuum has count 0 (occurs in no unitary alignment)",
+                  bad_detail="the cover test is not `count == 0 -> SetPartitionError` over every unit", key="zero-test")
     ctx.check(EXIT in cfg.reachable(0), "R-C17-3", f, None, "a valid cover passes (normal exit reachable)", construct="normal exit", key="accepts")
     if znode is not None:
         zl = enclosing(f.node, znode, (ast.For,))
